@@ -58,6 +58,10 @@ TECHNIQUE = {
            'class lattice, registry rewrite inventory, route identity encode/decode pairing',
 }
 
+DRIFT_SUFFIX = ('; cross-check through time against reference tables of the confirmed tree: '
+                'condition / decision / expression drift, call conditions by truth table over '
+                'path atoms (must-pass-through), memo-key completeness')
+
 NOT_BUILT = 'check not built yet (see DESIGN.md section 4 for the planned structural rules)'
 NA = {}
 
@@ -88,7 +92,7 @@ for p in props:
             'design_ref': 'DESIGN.md section 4/%s' % pid,
         },
         'level_note': meta.get('level_note') or '; '.join(mod.ASSUMPTIONS),
-        'technique': meta.get('technique') or TECHNIQUE[pid],
+        'technique': (meta.get('technique') or TECHNIQUE[pid]) + DRIFT_SUFFIX,
     })
 
 manifest = {
